@@ -127,8 +127,8 @@ def frame {σ : Type} (D : LineDecoder σ) (ls : List Str) : σ :=
 def decodeSched {σ : Type} (D : LineDecoder σ) (s : Sched) : Except IoKind σ :=
   match readBom s with
   | (.error k, _) => .error k
-  | (.ok enc, s1) =>
-    match readAll enc s1 with
+  | (.ok (enc, pfx), s1) =>
+    match readAll enc (pushRest pfx s1) with
     | (_, some k) => .error k
     | (ls, none) => .ok (frame D ls)
 
